@@ -185,11 +185,18 @@ impl Handler for SuperCallChecker {
       self.traverse(arg.as_node(), ctx);
     }
 
-    if self.yet_appeared()
-      && matches!(call_expr.callee, ast_view::Callee::Super(_))
-    {
-      self.first_appeared = Some(FirstAppeared::SuperCalled);
+    if matches!(call_expr.callee, ast_view::Callee::Super(_)) {
+      if self.yet_appeared() {
+        self.first_appeared = Some(FirstAppeared::SuperCalled);
+      }
+    } else {
+      self.traverse(call_expr.callee.as_node(), ctx);
     }
+
+    // Everything below this call has been looked at by now. Letting the
+    // traversal descend into it again would double the work at every level of
+    // nested calls.
+    ctx.stop_traverse();
   }
 }
 
